@@ -92,7 +92,7 @@ PROPERTIES: dict[str, dict] = {
         "assumptions": COMMON_ASSUMPTIONS,
     },
     "C10": {
-        "rules": ["R-GRAM3", "R-LEX", "R-GRAMREC", "R-LISTENERS", "R-HANDLERS", "R-ORDERING", "R-DUPATTR", "R-ESCAPE", "R-ALIAS", "R-KEYS", "R-ELEMTABLE", "R-CODEC", "R-GRAPHBUILD"],
+        "rules": ["R-GRAM3", "R-LEX", "R-GRAMREC", "R-LISTENERS", "R-HANDLERS", "R-ORDERING", "R-DUPATTR", "R-ESCAPE", "R-ALIAS", "R-KEYS", "R-ELEMTABLE", "R-CODEC", "R-GRAPHBUILD", "R-GLOBAL"],
         "thorough_rules": ["R-GENCODE"],
         "technique": "language equivalence EBNF = G4 = generated ATN by automata + typestate/CFG rules on the parser wiring",
         "explanation": "The recogniser the parser runs is the published grammar (decision procedure over all strings: three-way language equivalence "
